@@ -84,3 +84,18 @@ CHECKS["C19"] = {
     "note": "Argument-conversion aborts exist only on the foreign-ABI backend (native backends: callback-body and "
             "guest-body aborts). Trusted: TLC, harness/tree_driver.cpp, vm backend, g++ 12.",
 }
+
+CHECKS["C06"] = {
+    "technique": "TLA+ Contract/Model (IntConv): TLC checks the transcribed convert_type_fundamental against the two-sided "
+                 "Contract for every pair/value of a scaled type family; exhaustive/interval-summarised sweeps of the real "
+                 "code judged by TLC (Trace_IntConv) over exact wide integers",
+    "text": "TLC proves on a scaled family (1-6 bit types, all 81 ordered pairs, every value) that the transcribed branch "
+            "structure of convert_type_fundamental yields exactly 'same value iff representable, abort otherwise', and "
+            "that representable values are convex; the real code is swept for all 225 ordered pairs of the 15 integer "
+            "types - every source value up to 16 bits (32 bits in the thorough tier), boundary vectors, dense windows "
+            "at type limits and seeded random values beyond - directly and through every crossing (stores, loads, "
+            "arrays, invoke arguments/results, callback results) under two foreign ABIs; runs of equal outcome are "
+            "judged by TLC with exact wide arithmetic.",
+    "note": "64-bit sources are not exhaustive. Flag-abort build observes aborts as failed dynamic_checks. Trusted: TLC, "
+            "harness/conv_driver.cpp (records outcome classes mechanically), vm backend, g++ 12.",
+}
